@@ -9,10 +9,23 @@ package main
 //    Both panic on a nonce that is not 12 bytes, as crypto/cipher documents.
 
 import (
+	"crypto/aes"
+	"crypto/cipher"
 	"crypto/sha256"
 	"crypto/sha512"
 	"fmt"
 )
+
+func concTerms(ts []*Term) ([]byte, bool) {
+	out := make([]byte, len(ts))
+	for i, t := range ts {
+		if !t.IsConst() {
+			return nil, false
+		}
+		out[i] = byte(t.val)
+	}
+	return out, true
+}
 
 type hashFact struct {
 	alg     string
@@ -85,6 +98,18 @@ func (ex *Exec) digest(alg string, size int, in []*Term) []*Term {
 					ex.addAxiom(mkOr(mkNot(ex.strEq(f.in, in)), ex.strEq(f.out, out)))
 				}
 			}
+			if ex.p.stubSet["hash-collision-free"] {
+				for _, f := range ex.hashApps {
+					if f.alg != alg {
+						continue
+					}
+					if len(f.in) == len(in) {
+						ex.addAxiom(mkOr(mkNot(ex.strEq(f.out, out)), ex.strEq(f.in, in)))
+					} else {
+						ex.addAxiom(mkNot(ex.strEq(f.out, out)))
+					}
+				}
+			}
 			ex.hashFacts = append(ex.hashFacts, hashFact{alg: alg, in: in, out: out})
 			return out
 		}
@@ -96,6 +121,19 @@ func (ex *Exec) digest(alg string, size int, in []*Term) []*Term {
 	for _, f := range ex.hashFacts {
 		if f.alg == alg && len(f.in) == len(in) {
 			ex.addAxiom(mkOr(mkNot(ex.strEq(f.in, in)), ex.strEq(f.out, out)))
+		}
+	}
+	if ex.p.stubSet["hash-collision-free"] {
+		// stated assumption: no collisions among the hash inputs of this run
+		for _, f := range append(append([]hashFact{}, ex.hashFacts...), ex.hashApps...) {
+			if f.alg != alg {
+				continue
+			}
+			if len(f.in) == len(in) {
+				ex.addAxiom(mkOr(mkNot(ex.strEq(f.out, out)), ex.strEq(f.in, in)))
+			} else {
+				ex.addAxiom(mkNot(ex.strEq(f.out, out)))
+			}
 		}
 	}
 	ex.hashApps = append(ex.hashApps, hashFact{alg: alg, in: in, out: out})
@@ -175,15 +213,43 @@ func (ex *Exec) mkAEAD(key []*Term) Value {
 			if len(nonce) != 12 {
 				ex.throwMsg(nil, 0, "crypto/cipher: incorrect nonce length given to GCM")
 			}
+			// fully concrete arguments: the real AES-GCM
+			if k, ok1 := concTerms(key); ok1 {
+				if n, ok2 := concTerms(nonce); ok2 {
+					if p, ok3 := concTerms(pt); ok3 {
+						if a, ok4 := concTerms(aad); ok4 {
+							if blk, err := aes.NewCipher(k); err == nil {
+								if g, err := cipher.NewGCM(blk); err == nil {
+									real := g.Seal(nil, n, p, a)
+									ct := make([]*Term, len(real))
+									for i, c := range real {
+										ct[i] = byteConst(c)
+									}
+									ex.seals = append(ex.seals, &sealRec{key: key, nonce: nonce, pt: pt, aad: aad, ct: ct})
+									return append(dst, termsToValues(ct)...)
+								}
+							}
+						}
+					}
+				}
+			}
 			// functional: reuse an existing record with identical argument terms
 			all := append(append(append(append([]*Term{}, key...), nonce...), pt...), aad...)
 			ct := make([]*Term, len(pt)+16)
 			for i := range ct {
 				ct[i] = mkApp(fmt.Sprintf("gcmseal_k%d_p%d_a%d_o%d", len(key), len(pt), len(aad), i), 8, all...)
 			}
+			// an ideal cipher is injective: equal ciphertexts come from equal (key, nonce, plaintext)
+			for _, r := range ex.seals {
+				if len(r.ct) == len(ct) {
+					same := mkAnd(ex.strEq(r.key, key), mkAnd(ex.strEq(r.nonce, nonce), mkAnd(ex.strEq(r.pt, pt), ex.strEq(r.aad, aad))))
+					ex.addAxiom(mkOr(mkNot(ex.strEq(r.ct, ct)), same))
+				}
+			}
 			ex.seals = append(ex.seals, &sealRec{key: key, nonce: nonce, pt: pt, aad: aad, ct: ct})
-			out := append(append([]Value{}, dst...), termsToValues(ct)...)
-			return out
+			// like the real implementation, the result is appended to dst: with enough spare
+			// capacity the ciphertext is written into dst's backing array
+			return append(dst, termsToValues(ct)...)
 		},
 		"Open": func(ex *Exec, args []Value) Value {
 			var dst []Value
@@ -200,6 +266,27 @@ func (ex *Exec) mkAEAD(key []*Term) Value {
 			if len(ct) < 16 {
 				return fail()
 			}
+			if k, ok1 := concTerms(key); ok1 {
+				if n, ok2 := concTerms(nonce); ok2 {
+					if c, ok3 := concTerms(ct); ok3 {
+						if a, ok4 := concTerms(aad); ok4 {
+							if blk, err := aes.NewCipher(k); err == nil {
+								if g, err := cipher.NewGCM(blk); err == nil {
+									real, oerr := g.Open(nil, n, c, a)
+									if oerr != nil {
+										return fail()
+									}
+									out := make([]Value, len(real))
+									for i, b := range real {
+										out[i] = byteConst(b)
+									}
+									return Tuple{append(dst, out...), Iface{}}
+								}
+							}
+						}
+					}
+				}
+			}
 			for _, r := range ex.seals {
 				if len(r.ct) != len(ct) || len(r.key) != len(key) || len(r.aad) != len(aad) {
 					continue
@@ -209,8 +296,7 @@ func (ex *Exec) mkAEAD(key []*Term) Value {
 				c = mkAnd(c, ex.strEq(r.ct, ct))
 				c = mkAnd(c, ex.strEq(r.aad, aad))
 				if ex.branch(c, "aead-open-matches-seal") {
-					out := append(append([]Value{}, dst...), termsToValues(r.pt)...)
-					return Tuple{out, Iface{}}
+					return Tuple{append(dst, termsToValues(r.pt)...), Iface{}}
 				}
 			}
 			return fail()
@@ -300,7 +386,7 @@ func init() {
 			}
 			return mkStr(out)
 		}
-		symbolicOnly := func(name, prefix string) {
+		symbolicOnly := func(name, prefix string, always bool) {
 			p.reg(name, func(ex *Exec, fr *Frame, args []Value) Value {
 				var bs []*Term
 				switch v := args[0].(type) {
@@ -319,15 +405,17 @@ func init() {
 						conc = false
 					}
 				}
-				if conc {
+				if conc && !always {
 					return ex.runReal(fr, name, args)
 				}
 				return hexModel(prefix, bs)
 			})
 		}
-		symbolicOnly("(github.com/multiformats/go-multihash.Multihash).B58String", "mh58-")
-		symbolicOnly("(github.com/multiformats/go-multihash.Multihash).HexString", "")
-		symbolicOnly("(github.com/multiformats/go-multihash.Multihash).String", "")
-		symbolicOnly("(github.com/ipfs/go-cid.Cid).String", "cid-")
+		symbolicOnly("(github.com/multiformats/go-multihash.Multihash).B58String", "mh58-", false)
+		symbolicOnly("(github.com/multiformats/go-multihash.Multihash).HexString", "", false)
+		symbolicOnly("(github.com/multiformats/go-multihash.Multihash).String", "", false)
+		// the CID text form is a cache key in the announce receiver: one model for
+		// concrete and symbolic CIDs alike, so that equal CIDs have equal text
+		symbolicOnly("(github.com/ipfs/go-cid.Cid).String", "cid-", true)
 	})
 }
